@@ -162,7 +162,7 @@ end PcVerif.Spec
 namespace PcVerif.Spec
 open Str TextW
 
-private abbrev R := replaceAux arrowOld arrowNew 0
+abbrev R := replaceAux arrowOld arrowNew 0
 
 theorem isPrefix_R (p : Str) (hp : ∀ x ∈ p, x ≠ '-') (s : Str) : isPrefix p (R s) = isPrefix p s := by
   unfold isPrefix R
